@@ -258,6 +258,16 @@ func (p *Promise) Join(from *Answer) {
 		panic("Promise.Join called after Fulfill, Reject, or Join")
 	}
 	p.caller = nil
+	if p.ongoingCalls > 0 {
+		// Wait for ongoing calls before touching the other promise: no
+		// other Promise.mu may be held while waiting.
+		p.callsStopped = make(chan struct{})
+		p.joined = make(chan struct{})
+		p.mu.Unlock()
+		<-p.callsStopped
+		p.mu.Lock()
+		p.callsStopped = nil
+	}
 
 	parent := from.f.promise
 	parent.mu.Lock()
@@ -300,16 +310,6 @@ traversal:
 		default:
 			panic("unreachable")
 		}
-	}
-	if p.ongoingCalls > 0 {
-		p.callsStopped = make(chan struct{})
-		if p.joined == nil {
-			p.joined = make(chan struct{})
-		}
-		p.mu.Unlock()
-		<-p.callsStopped
-		p.mu.Lock()
-		p.callsStopped = nil
 	}
 	if p.joined != nil {
 		// Transition out of pending join state.
